@@ -26,16 +26,38 @@ def select(progs, tier, seed):
     return core + rng.sample(nulls, min(len(nulls), 120))
 
 
-def run_programs(progs, lp=2, extra_args=(), timeout=900):
-    exe = vlib.build_harness("api_replay", ["api_replay.c"], alloc=True)
+_dec_stream = {}
+
+
+def dec_stream():
+    """a valid 64x64 8-bit stream (3 temporal units) for the decoder programs, produced by the encoder recorder."""
+    if "p" not in _dec_stream:
+        out = os.path.join(vlib.tmpdir(), "decapi_stream_%d" % os.getpid())
+        r = common.run_enc(out, ["-n", "3", "-w", "64", "-h", "64"], {"enc_mode": 8, "logical_processors": 2}, timeout=120)
+        if r["rc"] != 0 or not os.path.exists(out + ".pkts"):
+            raise vlib.ModelFailure("could not produce the stream for the decoder API programs")
+        _dec_stream["p"] = out + ".pkts"
+    return _dec_stream["p"]
+
+
+def dec_exe():
+    return vlib.build_harness("dec_api_replay", ["dec_api_replay.c"], alloc=True, libs=("dec",))
+
+
+def run_programs(progs, lp=2, extra_args=(), timeout=900, dec=False):
+    if dec:
+        exe = dec_exe()
+        extra_args = ["--pkts", dec_stream(), "--threads", str(lp)] + list(extra_args)
+    else:
+        exe = vlib.build_harness("api_replay", ["api_replay.c"], alloc=True)
     tdir = vlib.tmpdir()
 
     def one(j):
         i, p = j
-        pf = os.path.join(tdir, "prog_%d_%d.txt" % (os.getpid(), i))
+        pf = os.path.join(tdir, "prog%s_%d_%d.txt" % ("d" if dec else "", os.getpid(), i))
         of = pf + ".out"
         open(pf, "w").write("\n".join(c for c, a, act, b in p) + "\n")
-        rc, log = vlib.sh([exe, pf, of, "--lp", str(lp)] + list(extra_args), timeout=timeout)
+        rc, log = vlib.sh([exe, pf, of] + ([] if dec else ["--lp", str(lp)]) + list(extra_args), timeout=timeout)
         evs = []
         if os.path.exists(of):
             for line in open(of):
@@ -50,7 +72,28 @@ def run_programs(progs, lp=2, extra_args=(), timeout=900):
             os.unlink(of)
         os.unlink(pf)
         return {"prog": p, "rc": rc, "events": evs, "log": log[-1500:]}
-    return common.parallel(one, list(enumerate(progs)), workers=vlib.NCPU)
+    results = common.parallel(one, list(enumerate(progs)), workers=vlib.NCPU)
+    # a crash / non-return is reported only if it repeats when the program is run again on its own (twice at most):
+    # an observation that cannot be reproduced is counted, not reported
+    for k, r in enumerate(results):
+        bad = [(e["ev"], e.get("call")) for e in r["events"] if e["ev"] in ("Crash", "Blocked")]
+        if not bad and r["rc"] != -9:
+            continue
+        confirmed = False
+        for attempt in range(2):
+            r2 = one((100000 + k * 4 + attempt, r["prog"]))
+            bad2 = [(e["ev"], e.get("call")) for e in r2["events"] if e["ev"] in ("Crash", "Blocked")]
+            if (bad and bad2 and bad2[0] == bad[0]) or (not bad and r2["rc"] == -9):
+                confirmed = True
+                break
+        if not confirmed:
+            UNCONFIRMED.append({"program": [c for c, a, act, b in r["prog"]], "first": bad or "killed"})
+            r2["unconfirmed_first_run"] = bad
+            results[k] = r2
+    return results
+
+
+UNCONFIRMED = []
 
 
 def judge_calls(res, r, prop_kinds=("crash", "blocked", "retcode")):
